@@ -27,12 +27,11 @@ if [ "$(git -C /repo status --porcelain --untracked-files=no | wc -l)" != 0 ]; t
 git -C /repo apply $D/patch.diff
 for P in $PROP $EXTRA; do
   mkdir -p $S/ev
-  VERIF_EVIDENCE_DIR=$S/ev /verif/check $P > $D/check_$P.log 2>&1; rc=$?
+  mkdir -p $S/replays; VERIF_EVIDENCE_DIR=$S/ev VERIF_REPLAY_DIR=$S/replays /verif/check $P > $D/check_$P.log 2>&1; rc=$?
   cls=$(grep -oE "class=[^ ]+" $D/check_$P.log | head -1)
   v=MISSED; [ $rc = 1 ] && v=DETECTED; [ $rc -gt 1 ] && v=HARNESS-ERROR
   results="$results{\"check\":\"$P\",\"verdict\":\"$v\",\"exit\":$rc,\"first_class\":\"${cls#class=}\"},"
   echo "$ID: check $P -> $v ${cls}"
-  rm -f /verif/replays/$P-*.stderr
 done
 git -C /repo checkout -- .
 git -C /repo status --porcelain --untracked-files=no | head -3
